@@ -48,13 +48,30 @@ POLARS_CAVEATS = {
 }
 POLARS_CAVEATS[("nunique", "n_unique")] = ("Expr.n_unique() counts null as one more distinct value; Pandas' nunique and SQL's COUNT(DISTINCT) "
                                            "skip missing values (an all-null group gives 1 instead of 0)")
-CAVEAT_LIFTED_BY = {("nunique", "n_unique"): "drop_nulls"}
+POLARS_CAVEATS[("first", "first")] = ("Expr.first() is the value of the first row, null included; Pandas' groupby first (project and transform) is the first "
+                                      "non-missing value (g: x=[None, 1] gives null on Polars, 1 on Pandas)")
+POLARS_CAVEATS[("last", "last")] = ("Expr.last() is the value of the last row, null included; Pandas' groupby last is the last non-missing value")
+CAVEAT_LIFTED_BY = {("nunique", "n_unique"): "drop_nulls", ("first", "first"): "drop_nulls", ("last", "last"): "drop_nulls"}
 KEYWORD_CONSTRAINTS = {("bfill", "fill_null"): ("strategy", "backward"), ("ffill", "fill_null"): ("strategy", "forward")}
 BINOPS = {"-": ast.Sub, "+": ast.Add, "*": ast.Mult, "/": ast.Div, "//": ast.FloorDiv, "%": ast.Mod, "**": ast.Pow, "%/%": ast.Div,
           "mod": ast.Mod, "remainder": ast.Mod}
 CMPOPS = {"==": ast.Eq, "!=": ast.NotEq, "<": ast.Lt, "<=": ast.LtE, ">": ast.Gt, ">=": ast.GtE}
 EXPECTED_JOIN = {"inner": {("inner", False)}, "left": {("left", False)}, "right": {("left", True), ("right", False)},
                  "outer": {("outer", False), ("full", False)}, "full": {("outer", False), ("full", False)}, "cross": {("cross", False)}}
+
+
+def propagates_nulls(entry) -> bool:
+    """pl.when(<any operand is null>).then(None).otherwise(<primitive>) turns a null-ignoring primitive into a null-propagating one"""
+    body_ = entry.body if isinstance(entry, ast.Lambda) else entry
+    if isinstance(body_, ast.Call) and isinstance(body_.func, ast.Attribute) and body_.func.attr == "otherwise":
+        then_ = body_.func.value
+        if isinstance(then_, ast.Call) and isinstance(then_.func, ast.Attribute) and then_.func.attr == "then" and len(then_.args) == 1 \
+                and isinstance(then_.args[0], ast.Constant) and then_.args[0].value is None:
+            when_ = then_.func.value
+            if isinstance(when_, ast.Call) and dotted_name(when_.func) == "pl.when" and "is_null" in unparse(when_) \
+                    and ("any_horizontal" in unparse(when_) or "|" in unparse(when_)):
+                return True
+    return False
 
 
 # ------------------------------------------------------------------------------------------------ S1 / S2
@@ -400,6 +417,10 @@ def _s3(program, res):
             continue
         txt = unparse(pol[op])
         prim = [k for k in facts.NULL_SEMANTICS if k.startswith("pl.") and k in txt]
+        wrapped = propagates_nulls(pol[op])
+        if prim and wrapped and want == "propagate":
+            res.ok("C03-S3", f"Polars {op}: null when any operand is null, else {prim[0]} (Pandas' null behaviour)")
+            continue
         if prim and facts.NULL_SEMANTICS[prim[0]] != want:
             res.fail("C03-S3", "polars_model:PolarsModel.__init__", f"polars:{op}",
                      f"Polars binds `{op}` to `{txt}`; {prim[0]} {facts.NULL_SEMANTICS[prim[0]]}s nulls, Pandas (numpy.{op}) {want}s them: "
